@@ -56,6 +56,13 @@ func (s *Subscription[T]) Close() {
 		return // already closed
 	}
 
+	// Publish holds the topic lock for the whole (blocking) delivery, possibly
+	// to this subscription. Keep receiving until the topic has closed the
+	// channel, or the publisher and this Close would wait for each other.
+	go func(ch <-chan T) {
+		for range ch {
+		}
+	}(s.ch)
 	s.topic.unsubscribeID(s.id)
 	s.ch = nil
 	s.topic = nil
